@@ -819,8 +819,11 @@ fn mutate(args: &[String]) -> Value {
         *per_op.entry(op.to_string()).or_insert(0) += 1;
         if m.get("r").is_some_and(|r| r.is_array()) {
             cross += 1;
-            if toks(&m["r"]) != r && cross_bad.len() < 5 {
-                cross_bad.push(json!({"mutation": m, "harness": r}));
+            let spec_r = toks(&m["r"]);
+            if spec_r != r && cross_bad.len() < 5 {
+                let at = spec_r.iter().zip(&r).position(|(a, b)| a != b).unwrap_or(spec_r.len().min(r.len()));
+                cross_bad.push(json!({"base": i, "op": op, "p": p, "t": t, "first_difference_at": at,
+                    "spec": spec_r.get(at), "harness": r.get(at), "spec_len": spec_r.len(), "harness_len": r.len()}));
             }
         }
         cases.push(json!({"suite": "mut", "ctx": base["ctx"], "ts": r, "name": base["name"], "form": base["form"],
